@@ -62,6 +62,72 @@ mod imp {
     fn _unused(_: OnceLock<()>) {}
 }
 
+#[cfg(all(not(feature = "l1"), not(feature = "mt")))]
+mod imp {
+    //! L3 xrt: real runtime of whichever hannibal runtime feature is enabled
+    use super::*;
+    use std::sync::Mutex;
+    use std::time::{Duration, Instant};
+
+    static START: Mutex<Option<Instant>> = Mutex::new(None);
+    pub fn reset_clock() {
+        *START.lock().unwrap() = Some(Instant::now());
+    }
+    pub fn now_and_task() -> (u64, u32) {
+        let t = START.lock().unwrap().map(|s| s.elapsed().as_nanos() as u64).unwrap_or(0);
+        (t, u32::MAX)
+    }
+    /// one unit = 1 ms of real time
+    pub const UNIT_US: u64 = 1000;
+    pub fn sleep(units: u64) -> SendFut {
+        let d = Duration::from_micros(units * UNIT_US);
+        #[cfg(feature = "rt_tokio")]
+        {
+            Box::pin(tokio::time::sleep(d))
+        }
+        #[cfg(feature = "rt_async")]
+        {
+            Box::pin(async_std::task::sleep(d))
+        }
+        #[cfg(feature = "rt_smol")]
+        {
+            Box::pin(async move {
+                smol::Timer::after(d).await;
+            })
+        }
+    }
+    pub fn yield_now() -> SendFut {
+        #[cfg(feature = "rt_tokio")]
+        {
+            Box::pin(tokio::task::yield_now())
+        }
+        #[cfg(feature = "rt_async")]
+        {
+            Box::pin(async_std::task::yield_now())
+        }
+        #[cfg(feature = "rt_smol")]
+        {
+            Box::pin(smol::future::yield_now())
+        }
+    }
+    pub fn block_on<F: Future>(f: F) -> F::Output {
+        #[cfg(feature = "rt_tokio")]
+        {
+            use std::sync::OnceLock;
+            static RT: OnceLock<tokio::runtime::Runtime> = OnceLock::new();
+            RT.get_or_init(|| tokio::runtime::Builder::new_multi_thread().worker_threads(2).enable_all().build().unwrap()).block_on(f)
+        }
+        #[cfg(feature = "rt_async")]
+        {
+            async_std::task::block_on(f)
+        }
+        #[cfg(feature = "rt_smol")]
+        {
+            smol::block_on(f)
+        }
+    }
+}
+
 pub use imp::*;
 
 /// duration of `units` as hannibal sees it
@@ -70,8 +136,14 @@ pub fn dur(units: u64) -> std::time::Duration {
     {
         std::time::Duration::from_nanos(units * crate::vexec::UNIT)
     }
-    #[cfg(all(feature = "mt", not(feature = "l1")))]
+    #[cfg(not(feature = "l1"))]
     {
         std::time::Duration::from_micros(units * UNIT_US)
     }
 }
+
+/// nanoseconds per unit as seen in event timestamps
+#[cfg(feature = "l1")]
+pub const UNIT_NS: u64 = crate::vexec::UNIT;
+#[cfg(not(feature = "l1"))]
+pub const UNIT_NS: u64 = UNIT_US * 1000;
